@@ -12,6 +12,7 @@ Inductive hev :=
 
 Record case := mkCase {
   c_cfg : pcfg; c_win : wcfg; c_fm : list bool; c_fc : list bool; c_ft : list bool;
+  c_tail : Z;   (* index of the first event of the fault-free recovery tail, -1 = none *)
   c_steps : list (hev * list out)
 }.
 
